@@ -495,7 +495,7 @@ POLS = ["HH", "HV", "VH", "VV"]
 
 def rich_product(rng, np_seed, level=None, n_images=None, scans=None, geoms=None, max_lines=12, max_pixels=8,
                  pattern=None, classes=None, leader_kw=None, summary_order=None, newline="\n", spare=False,
-                 mode=None, optproj=None):
+                 mode=None, optproj=None, image_order=None):
     """a product in which every record carries random admissible content.
 
     -> (files, info) ; info has names, order, per-image models (type/lines/pixels), leader/volume parameters
@@ -511,6 +511,12 @@ def rich_product(rng, np_seed, level=None, n_images=None, scans=None, geoms=None
     if len(pols) * len(scans) > 8:
         pols = pols[: max(1, 8 // len(scans))]
     names = product_names(level, mode=mode or ("WBD" if scans != [None] else "FBD"), pols=pols, scans=scans, optproj=optproj)
+    if image_order == "scan-major":
+        names["imgs"].sort(key=lambda n: (n.rsplit("-", 1)[-1], n))
+    elif image_order == "reversed":
+        names["imgs"].reverse()
+    elif image_order == "random":
+        rng.shuffle(names["imgs"])
     files, images = {}, {}
     for k, n in enumerate(names["imgs"]):
         lines, pixels = geoms[k] if geoms else (rng.randrange(1, max_lines + 1), rng.randrange(1, max_pixels + 1))
